@@ -34,9 +34,12 @@ MCAppend(n, big, de, dx) ==
   /\ cfg.occ => n = 1
   /\ ~cfg.occ => dx = 9
   /\ CurEpoch + de <= MaxEpoch
-  /\ LET exp == IF dx = 9 THEN -1 ELSE NextOff + dx
+  \* dx: 9 = check waived (-1); 92, 93 = negative expected offsets other than -1 (only -1
+  \* waives the check: they are expectations like any other and are never met); otherwise
+  \* relative to the next offset (stale / equal / future)
+  /\ LET exp == CASE dx = 9 -> -1 [] dx = 92 -> -2 [] dx = 93 -> -1000000 [] OTHER -> NextOff + dx
          recs == Batch(n, big, CurEpoch + de, exp) IN
-     /\ exp >= -1
+     /\ dx \notin {92, 93} => exp >= -1
      /\ DoAppend(recs)
      /\ Step([a |-> "Append", recs |-> recs])
      /\ nRecs' = nRecs + n
@@ -68,7 +71,7 @@ MCDrain(r) == UseReaders /\ DoDrain(r) /\ Step([a |-> "Drain", r |-> r]) /\ UNCH
 MCTail(r) == UseReaders /\ DoDrain(r) /\ Step([a |-> "Tail", r |-> r]) /\ UNCHANGED nRecs
 
 MCNext ==
-  \/ \E n \in 1..MaxBatch, big \in BOOLEAN, de \in 0..1, dx \in {-1, 0, 1, 9} : MCAppend(n, big, de, dx)
+  \/ \E n \in 1..MaxBatch, big \in BOOLEAN, de \in 0..1, dx \in {-1, 0, 1, 9, 92, 93} : MCAppend(n, big, de, dx)
   \/ \E n \in 1..MaxBatch, big \in BOOLEAN, de \in 0..1 : MCAppendSet(n, big, de)
   \/ \E o \in 0..(Newest + 1) : o > hw /\ MCTruncate(o)
   \/ \E h \in (hw + 1)..Newest : MCSetHW(h)
@@ -92,7 +95,8 @@ StepOK ==
 StepsOK == [][StepOK]_mcvars
 
 \* a persistent reader never skips or repeats: its position only moves forward
-ReaderMonotone == [][\A r \in Readers : (rd[r].alive /\ rd'[r].alive) => rd'[r].next >= rd[r].next]_mcvars
+\* (a parked reader - created beyond the HW - resumes from the HW it saw at creation, see CommitLog.tla)
+ReaderMonotone == [][\A r \in Readers : (rd[r].alive /\ rd'[r].alive /\ ~rd[r].parked) => rd'[r].next >= rd[r].next]_mcvars
 
 MCView == <<cfg, log, segs, hw, epochs, ro, rd, nRecs, nOps>>
 LastJson == ToJson(last)
